@@ -3,6 +3,7 @@ import IrefVerif.Findings
 import IrefVerif.Lemmas.RelativeTotal
 import IrefVerif.Lemmas.RelativeRoundTrip
 import IrefVerif.Lemmas.WholeRoundTrip
+import IrefVerif.Lemmas.RelativeSameDoc
 import IrefVerif.Lemmas.IriBytes
 import IrefVerif.Props.Valid
 
@@ -31,14 +32,15 @@ also be empty), a target that is not the root, the "same document" shortcut not 
 remainder that does not begin with an empty segment unless a common directory precedes it — and
 for a target that is the root with the base below it (`roundtrip_root_partial`); the same without
 authority on either side, both paths absolute (`roundtrip_on_class_noauth_partial`, through
-`C06.resolve_relative_noauthority`).  There
+`C06.resolve_relative_noauthority`); and when the "same document" shortcut *is* taken
+(`roundtrip_same_document_partial`).  There
 `a.relative_to(b)` is `../` for every remaining segment of the base's directory followed by the
 remainder of `a` (`relative_to_on_class`), and resolving it against `b` gives a URI/IRI equal to `a`
 (`Lemmas/RelativeRoundTrip.lean`, through `C06.resolve_relative_authority`); the class is disjoint
 from `f12` (`class_outside_f12`).  (iv) **every whole-target fallback** of a target with an
 authority outside `f12` round-trips against every base (`roundtrip_whole_fallback_partial`; taken
-e.g. when only the target has an authority, `relative_to_authority_one_sided`).  PARTIAL: outside that class (bases without authority, the root
-seen from its own level, the shortcut, the fallbacks) the round trip is judged on the implementation by the oracle on every
+e.g. when only the target has an authority, `relative_to_authority_one_sided`).  PARTIAL: outside that class (relative paths without authority, the root
+seen from its own level, fallbacks of rootless targets) the round trip is judged on the implementation by the oracle on every
 generated pair: a failing pair outside `f12`, or any difference between model and implementation,
 is a violation.
 -/
@@ -211,6 +213,34 @@ example : Ref.relative_to [0x73,0x3A,0x2F,0x2F,0x68,0x2F] [0x73,0x3A,0x2F,0x2F,0
     = some [0x2E,0x2E] ∧
     nsegs (split [0x73,0x3A,0x2F,0x2F,0x68,0x2F]).path = [] ∧
     nsegs (Path.parent_or_empty (split [0x73,0x3A,0x2F,0x2F,0x68,0x2F,0x63,0x2F,0x69]).path) ≠ [] := by decide
+
+/-- **the round trip through the "same document" shortcut** (`s://h/a/b#f` relative to `s://h/a/b`
+is `#f`): the target has a query or a fragment, its query would not be lost behind the base's, and
+the relative path is exactly the base's last segment (`Lemmas.sdCond`); then `relative_to` writes
+the query and the fragment alone, resolution copies the base's path as it is, and the result is
+equal to the target.  Authorities equal as keys or absent on both sides. -/
+theorem roundtrip_same_document_partial (G : Grammar) (ok : Lemmas.Grammar.Ok G) (okp : Lemmas.Grammar.OkPath G)
+    (oka : Lemmas.Grammar.OkAuth G) (we : Lemmas.Grammar.OkWE G) (a b : Text)
+    (ha : RE.Matches G.full a) (hb : RE.Matches G.full b)
+    (hsch : (split a).scheme = (split b).scheme)
+    (hkey : (split a).authority.map authKey = (split b).authority.map authKey)
+    (hpa : isAbs (split a).path = true)
+    (hpb : isAbs (split b).path = true ∨ ((split b).path = [] ∧ (split b).authority.isSome = true))
+    (hne : nsegs (split a).path ≠ [])
+    (hcls : (!(Lemmas.remainder a b).2.2 && (Lemmas.remainder a b).1.head? == some []) = false)
+    (hsd : Lemmas.sdCond a b = true) :
+    ∃ r t, Ref.relative_to a b = some r ∧ Ref.resolve r b = some t ∧ key t = key a :=
+  Lemmas.relative_roundtrip_samedoc G ok okp oka we a b ha hb hsch hkey hpa hpb hne hcls hsd
+
+/-- non-vacuity: `s://h/a/b#f` relative to `s://h/a/./b` is `#f`, and resolving gives `s://h/a/./b#f`
+(equal to the target, not identical) -/
+example :
+    let a : Text := [0x73,0x3A,0x2F,0x2F,0x68,0x2F,0x61,0x2F,0x62,0x23,0x66]
+    let b : Text := [0x73,0x3A,0x2F,0x2F,0x68,0x2F,0x61,0x2F,0x2E,0x2F,0x62]
+    Lemmas.sdCond a b = true ∧ nsegs (split a).path ≠ [] ∧
+    (!(Lemmas.remainder a b).2.2 && (Lemmas.remainder a b).1.head? == some []) = false ∧
+    Ref.relative_to a b = some [0x23,0x66] ∧
+    Ref.resolve [0x23,0x66] b = some (b ++ [0x23,0x66]) ∧ key (b ++ [0x23,0x66]) = key a := by decide
 
 /-- **every whole-target fallback round-trips**: whenever `relative_to` gives back the whole target
 (normalised in place) — different schemes, different authorities, an authority on one side only,
